@@ -329,7 +329,8 @@ def _run_form(name, spec, res):
                             As = np.array([complex(p.eval_with(val)) if isinstance(p, CPoly) else p.eval_with(val) for p in kr.A])
                             err = np.max(np.abs(Ac - As)) if nA else 0.0
                             sc = max(1.0, float(np.max(np.abs(Ac))) if nA else 1.0)
-                            if not (err <= 1e-8 * sc) and np.all(np.isfinite(Ac)):
+                            sv_tol = 5e-5 if str(scalar) in ("float32", "complex64") else 1e-8  # the real build computes in the kernel's precision
+                            if not (err <= sv_tol * sc) and np.all(np.isfinite(Ac)):
                                 res["harness"].append(f"{label}: translator self-validation failed (err {err:.3g})")
                             res["selfval"] += 1
                     viol = compare_values(ctx, kr.A, Rf, rel, stats, res, label, base_env=base_env)
